@@ -23,6 +23,18 @@
 (* counterexamples (stale frames make recovery skip the CRC check; remains *)
 (* of two same-shaped torn batches form a valid batch).                    *)
 (* Payload words may look like frame headers (Looks): "for all contents".  *)
+(*                                                                         *)
+(* Sealing (WithSeal): a batch may end with an index frame                 *)
+(*   I(n) X..X      index frame: header word + ceil(n/2) words of offsets   *)
+(* before its commit frame - the sealing append, or ForceSeal (a batch of  *)
+(* no entries: index + commit).  The writer remembers where the index      *)
+(* array starts (idxStart, what the metadata will call IndexStart).        *)
+(* Recovery skips index frames and adopts the index position only from the *)
+(* commit frame it accepts (fix F2).  SealFromScan = TRUE is the pinned    *)
+(* behaviour: the position of the last index frame header seen anywhere,   *)
+(* for which TLC finds the torn forced seal (index header persisted, its   *)
+(* commit not): the recovered writer claims to be sealed and IndexStart    *)
+(* addresses words that are not an index.                                  *)
 (***************************************************************************)
 EXTENDS Integers, Sequences, FiniteSets, TLC
 
@@ -32,7 +44,9 @@ CONSTANTS N,          \* words in the file
           MaxBatch,   \* entries per StoreLogs
           MaxCrashes,
           Erase,      \* repaired design
-          Looks       \* what payload words look like to a scanner: subset of {"junk", "ehdr", "chdr"}
+          Looks,      \* what payload words look like to a scanner: subset of {"junk", "ehdr", "chdr", "ihdr"}
+          WithSeal,   \* batches may seal the segment
+          SealFromScan \* pinned recoverTail (F2): indexStart from any index frame header seen
 
 VARIABLES cache,     \* page cache: Seq of words, length N
           disk,      \* durable content
@@ -43,15 +57,22 @@ VARIABLES cache,     \* page cache: Seq of words, length N
           sub,       \* ghost: index -> [c |-> content id, k |-> size] most recently submitted
           acked,     \* ghost: indexes whose StoreLogs returned nil
           inflight,  \* ghost: indexes of the batch being written
+          idxStart,  \* writer: position of the first word of the index array (0 = not sealed)
+          sealAck,   \* ghost: a sealing batch was acknowledged
           nc, crashes, pc
 
-vars == <<cache, disk, dirty, wOff, offs, commitIdx, sub, acked, inflight, nc, crashes, pc>>
+vars == <<cache, disk, dirty, wOff, offs, commitIdx, sub, acked, inflight, idxStart, sealAck, nc, crashes, pc>>
 
 Z == [t |-> "Z"]
 Hd == [t |-> "H"]
 EHdr(k) == [t |-> "E", len |-> k]
 Pay(c, j, lk) == [t |-> "P", c |-> c, j |-> j, look |-> lk]
 Cmt(crc) == [t |-> "C", crc |-> crc]
+IHdr(n) == [t |-> "I", len |-> n]
+IxW(o) == [t |-> "IX", offs |-> o]
+IxLen(n) == (n + 1) \div 2
+IndexWords(os) == <<IHdr(Len(os))>> \o [j \in 1..IxLen(Len(os)) |->
+                     IxW(SubSeq(os, 2 * j - 1, IF 2 * j <= Len(os) THEN 2 * j ELSE Len(os)))]
 
 EntryWords(c, k, lk) == <<EHdr(k)>> \o [j \in 1..k |-> Pay(c, j, lk)]
 
@@ -63,30 +84,37 @@ SeqsOver(S, n) == IF n = 0 THEN {<<>>} ELSE {Append(q, x) : q \in SeqsOver(S, n 
 
 Init == /\ cache = [i \in 1..N |-> Z] /\ disk = [i \in 1..N |-> Z] /\ dirty = {}
         /\ wOff = 1 /\ offs = <<>> /\ commitIdx = 0 /\ sub = <<>> /\ acked = {} /\ inflight = {}
+        /\ idxStart = 0 /\ sealAck = FALSE
         /\ nc = 1 /\ crashes = 0 /\ pc = "idle"
 
 (* how a scanner reads a word as a frame header *)
 AsHeader(w) ==
-  IF w.t = "P" THEN (IF w.look = "ehdr" THEN EHdr(1) ELSE IF w.look = "chdr" THEN Cmt(<<"fake", w.c, w.j>>) ELSE [t |-> "X"])
+  IF w.t = "P" THEN (IF w.look = "ehdr" THEN EHdr(1) ELSE IF w.look = "chdr" THEN Cmt(<<"fake", w.c, w.j>>)
+                     ELSE IF w.look = "ihdr" THEN IHdr(1) ELSE [t |-> "X"])
   ELSE IF w.t = "H" THEN [t |-> "X"]     \* the magic number is not a valid frame type
+  ELSE IF w.t = "IX" THEN [t |-> "X"]    \* offsets are multiples of 8: the type byte of such a word is not a frame type
   ELSE w
 
 ----------------------------------------------------------------------------
 (* Writer *)
-Write(szs, lks) ==
-  /\ pc = "idle"
+Write(szs, lks, seal) ==
+  /\ pc = "idle" /\ idxStart = 0
   /\ LET n == Len(szs)
          first == commitIdx + 1
          ents == [j \in 1..n |-> EntryWords(nc + j - 1, szs[j], lks[j])]
          body == Flat(ents)
          pre == IF wOff = 1 THEN <<Hd>> ELSE <<>>
-         words == pre \o body \o <<Cmt(pre \o body)>>
          pos(j) == wOff + Len(pre) + Len(Flat(SubSeq(ents, 1, j - 1)))
-     IN /\ first + n - 1 <= MaxIdx
+         noffs == offs \o [j \in 1..n |-> pos(j)]
+         idx == IF seal THEN IndexWords(noffs) ELSE <<>>
+         words == pre \o body \o idx \o <<Cmt(pre \o body \o idx)>>
+     IN /\ (n > 0 \/ (seal /\ offs # <<>>))          \* ForceSeal: no entries, index + commit
+        /\ first + n - 1 <= MaxIdx
         /\ wOff + Len(words) - 1 <= N
+        /\ idxStart' = IF seal THEN wOff + Len(pre) + Len(body) + 1 ELSE 0
         /\ cache' = [i \in 1..N |-> IF i >= wOff /\ i < wOff + Len(words) THEN words[i - wOff + 1] ELSE cache[i]]
         /\ dirty' = dirty \cup (wOff..(wOff + Len(words) - 1))
-        /\ offs' = offs \o [j \in 1..n |-> pos(j)]
+        /\ offs' = noffs
         /\ sub' = [i \in 1..(IF Len(sub) > first + n - 1 THEN Len(sub) ELSE first + n - 1) |->
                       IF i >= first /\ i <= first + n - 1
                       THEN [c |-> nc + (i - first), k |-> szs[i - first + 1], look |-> lks[i - first + 1]] ELSE sub[i]]
@@ -94,15 +122,16 @@ Write(szs, lks) ==
         /\ nc' = nc + n
         /\ wOff' = wOff + Len(words)
         /\ pc' = "written"
-        /\ UNCHANGED <<disk, commitIdx, acked, crashes>>
+        /\ UNCHANGED <<disk, commitIdx, acked, sealAck, crashes>>
 
 Sync ==
   /\ pc = "written"
   /\ disk' = cache /\ dirty' = {}
   /\ commitIdx' = Len(offs)
   /\ acked' = acked \cup inflight /\ inflight' = {}
+  /\ sealAck' = (sealAck \/ idxStart # 0)
   /\ pc' = "idle"
-  /\ UNCHANGED <<cache, wOff, offs, sub, nc, crashes>>
+  /\ UNCHANGED <<cache, wOff, offs, sub, idxStart, nc, crashes>>
 
 ----------------------------------------------------------------------------
 (* Power loss: any subset of the un-fsynced words reaches the disk *)
@@ -112,55 +141,62 @@ Crash ==
   /\ \E keep \in SUBSET dirty :
         disk' = [i \in 1..N |-> IF i \in keep THEN cache[i] ELSE disk[i]]
   /\ dirty' = {} /\ pc' = "down" /\ crashes' = crashes + 1
-  /\ UNCHANGED <<cache, wOff, offs, commitIdx, sub, acked, inflight, nc>>
+  /\ UNCHANGED <<cache, wOff, offs, commitIdx, sub, acked, inflight, idxStart, sealAck, nc>>
 
 ----------------------------------------------------------------------------
 (* recoverTail *)
-RECURSIVE Scan(_, _, _, _, _)
-\* readThroughSegment + the callback of recoverTail: os = entry positions, final/prev = last two commits
-Scan(d, pos, os, final, prev) ==
-  IF pos > N THEN [offs |-> os, final |-> final, prev |-> prev]
+RECURSIVE Scan(_, _, _, _, _, _, _)
+\* readThroughSegment + the callback of recoverTail: os = entry positions, final/prev = last two commits,
+\* pend = index array position seen since the last commit, anyIdx = last index frame seen at all (pinned code)
+Scan(d, pos, os, final, prev, pend, anyIdx) ==
+  IF pos > N THEN [offs |-> os, final |-> final, prev |-> prev, anyIdx |-> anyIdx]
   ELSE LET w == AsHeader(d[pos]) IN
-    IF w.t = "E" THEN Scan(d, pos + 1 + w.len, Append(os, pos), final, prev)
+    IF w.t = "E" THEN Scan(d, pos + 1 + w.len, Append(os, pos), final, prev, pend, anyIdx)
+    ELSE IF w.t = "I" THEN Scan(d, pos + 1 + IxLen(w.len), os, final, prev, pos + 1, pos + 1)
     ELSE IF w.t = "C" THEN
          Scan(d, pos + 1, os,
-              <<[pos |-> pos, crcStart |-> IF final = <<>> THEN 1 ELSE final[1].pos + 1, n |-> Len(os)]>>, final)
-    ELSE [offs |-> os, final |-> final, prev |-> prev]      \* zeros or an invalid header: stop
+              <<[pos |-> pos, crcStart |-> IF final = <<>> THEN 1 ELSE final[1].pos + 1, n |-> Len(os), idx |-> pend]>>,
+              final, 0, anyIdx)
+    ELSE [offs |-> os, final |-> final, prev |-> prev, anyIdx |-> anyIdx]      \* zeros or an invalid header: stop
 
 Covered(d, a, b) == [i \in 1..(b - a + 1) |-> d[a + i - 1]]
 
-(* decision of recoverTail: [w |-> write offset, offs |-> index, err |-> header validation failed] *)
+(* decision of recoverTail: [w |-> write offset, offs |-> index, idx |-> indexStart, err |-> header validation failed] *)
 Decide(d) ==
-  LET r == Scan(d, 2, <<>>, <<>>, <<>>) IN
-  IF r.final = <<>> THEN [w |-> 1, offs |-> <<>>, err |-> FALSE]
+  LET r == Scan(d, 2, <<>>, <<>>, <<>>, 0, 0)
+      Idx(c) == IF SealFromScan THEN r.anyIdx ELSE c.idx
+  IN
+  IF r.final = <<>> THEN [w |-> 1, offs |-> <<>>, idx |-> IF SealFromScan THEN r.anyIdx ELSE 0, err |-> FALSE]
   ELSE LET f == r.final[1] IN
     IF f.n < Len(r.offs)
-    THEN [w |-> f.pos + 1, offs |-> SubSeq(r.offs, 1, f.n), err |-> d[1] # Hd]          \* trusted without CRC validation
+    THEN [w |-> f.pos + 1, offs |-> SubSeq(r.offs, 1, f.n), idx |-> Idx(f), err |-> d[1] # Hd]          \* trusted without CRC validation
     ELSE IF d[f.pos].t = "C" /\ Covered(d, f.crcStart, f.pos - 1) = d[f.pos].crc
-    THEN [w |-> f.pos + 1, offs |-> r.offs, err |-> d[1] # Hd]
-    ELSE IF r.prev = <<>> THEN [w |-> 1, offs |-> <<>>, err |-> FALSE]
-    ELSE [w |-> r.prev[1].pos + 1, offs |-> SubSeq(r.offs, 1, r.prev[1].n), err |-> d[1] # Hd]  \* rewind, unvalidated
+    THEN [w |-> f.pos + 1, offs |-> r.offs, idx |-> Idx(f), err |-> d[1] # Hd]
+    ELSE IF r.prev = <<>> THEN [w |-> 1, offs |-> <<>>, idx |-> IF SealFromScan THEN r.anyIdx ELSE 0, err |-> FALSE]
+    ELSE [w |-> r.prev[1].pos + 1, offs |-> SubSeq(r.offs, 1, r.prev[1].n), idx |-> Idx(r.prev[1]), err |-> d[1] # Hd]  \* rewind, unvalidated
 
 Recover ==
   /\ pc = "down"
   /\ LET r == Decide(disk)
          junk == {i \in r.w..N : disk[i] # Z}
      IN /\ wOff' = r.w /\ offs' = r.offs /\ commitIdx' = Len(r.offs)
+        /\ idxStart' = r.idx
         /\ inflight' = inflight        \* ghost: the batch the crash interrupted (for C02_BatchAtomic)
         /\ IF r.err THEN pc' = "openfailed" /\ UNCHANGED <<cache, dirty>>
            ELSE IF Erase /\ junk # {}
            THEN /\ cache' = [i \in 1..N |-> IF i \in junk THEN Z ELSE disk[i]]
                 /\ dirty' = junk /\ pc' = "zeroing"
            ELSE /\ cache' = disk /\ dirty' = {} /\ pc' = "idle"
-  /\ UNCHANGED <<disk, sub, acked, nc, crashes>>
+  /\ UNCHANGED <<disk, sub, acked, sealAck, nc, crashes>>
 
 ZeroSync ==
   /\ pc = "zeroing"
   /\ disk' = cache /\ dirty' = {} /\ pc' = "idle"
-  /\ UNCHANGED <<cache, wOff, offs, commitIdx, sub, acked, inflight, nc, crashes>>
+  /\ UNCHANGED <<cache, wOff, offs, commitIdx, sub, acked, inflight, idxStart, sealAck, nc, crashes>>
 
 Next ==
-  \/ \E n \in 1..MaxBatch : \E szs \in SeqsOver(Sizes, n), lks \in SeqsOver(Looks, n) : Write(szs, lks)
+  \/ \E n \in 1..MaxBatch : \E szs \in SeqsOver(Sizes, n), lks \in SeqsOver(Looks, n) : Write(szs, lks, FALSE)
+  \/ WithSeal /\ \E n \in 0..MaxBatch : \E szs \in SeqsOver(Sizes, n), lks \in SeqsOver(Looks, n) : Write(szs, lks, TRUE)
   \/ Sync \/ Crash \/ Recover \/ ZeroSync
 
 Spec == Init /\ [][Next]_vars
@@ -187,6 +223,16 @@ SetMin(S) == CHOOSE x \in S : \A y \in S : x <= y
 SetMax(S) == CHOOSE x \in S : \A y \in S : y <= x
 C02_BatchAtomic == (pc \in {"idle", "zeroing"} /\ inflight # {}) =>
                       (commitIdx < SetMin(inflight) \/ commitIdx >= SetMax(inflight))
+
+(* C01 for sealed segments: a writer that says "sealed" has a whole index frame at idxStart that addresses  *)
+(* exactly the readable entries, directly followed by its commit frame (this is what the metadata will    *)
+(* record as IndexStart and what every later read of the sealed segment goes through)                      *)
+C01_SealValid == (Up /\ idxStart # 0) =>
+    LET iw == IndexWords(offs) IN
+    /\ idxStart - 1 + Len(iw) = wOff - 1
+    /\ \A j \in 1..Len(iw) : cache[idxStart - 2 + j] = iw[j]
+(* an acknowledged seal survives *)
+C01_SealDurable == (Up /\ sealAck) => idxStart # 0
 
 (* the durable image itself is consistent once recovery has finished *)
 C02_Durable == (pc = "idle" /\ dirty = {}) => \A i \in 1..commitIdx : Whole(disk, i)
